@@ -101,6 +101,13 @@ def place_gaps(rng, n, k, how, idx, protect_edges=True):
     elif how == "run":
         a = int(rng.integers(lo, max(lo + 1, hi - k)))
         m[a:a + k] = True
+    elif how in ("first_row_plus_random", "last_row_plus_random", "both_end_rows_plus_random"):
+        # an incomplete FIRST / LAST row plus k-1 rows anywhere: every row's period runs up to the NEXT timestamp
+        ends = [0] if how.startswith("first") else [n - 1] if how.startswith("last") else [0, n - 1]
+        m[ends] = True
+        rest = k - len(ends)
+        if rest > 0:
+            m[rng.choice(np.arange(1, n - 1), size=min(rest, n - 2), replace=False)] = True
     elif how == "leading":
         m[:k] = True
     elif how == "trailing":
@@ -459,6 +466,16 @@ def gen_cases(tier, seed):
         if ku + kt > n - 40:
             spec["k_usage"], spec["k_temp"] = min(ku, 60), min(kt, 60)
         cases.append(spec)
+    # incomplete first / last rows with the count of missing days exactly on, just under and just over the 90% line (frame entry, whole-day zones)
+    for i in range(18 if q else 180):
+        n = int(rng.choice([330, 365, 350, 329]))
+        kstar = threshold_k(n)
+        how = ["first_row_plus_random", "last_row_plus_random", "both_end_rows_plus_random"][i % 3]
+        k = kstar + [0, 1, -1, 2][(i // 3) % 4]
+        which = ["temp", "usage", "both"][(i // 12) % 3] if i % 5 else "temp"
+        role = "baseline" if i % 4 else "reporting"
+        cases.append(dict(kind="daily", family="daily", role=role, tz=str(rng.choice(NO_DST)), n_days=n, entry="frame", k_usage=k if (which != "temp" and role == "baseline") else 0,
+                          k_temp=k if which != "usage" or role != "baseline" else 0, how_usage=how, how_temp=how, same_days=(which == "both"), gas=bool(i % 2), n=50000 + i))
     nh = 12 if q else 150
     for i in range(nh):
         tz = str(rng.choice(NO_DST + DST))
